@@ -16,18 +16,6 @@ equals the client's current names.
 -/
 namespace IstioModel.C04
 
-def lastOr (d : String) : List String → String
-  | [] => d
-  | x :: xs => lastOr x xs
-
-theorem lastOr_append (d : String) (l : List String) (n : String) : lastOr d (l ++ [n]) = n := by
-  induction l generalizing d with
-  | nil => rfl
-  | cons x xs ih => exact ih x
-
-theorem lastOr_ne_nil (d : String) (l : List String) (h : lastOr d l ≠ d) : l ≠ [] := by
-  intro hl; subst hl; exact h rfl
-
 structure Inv (t : Ty) (y : Sys) : Prop where
   tys : ∀ m ∈ y.c2s, m.ty = t
   nonce : ∀ w, y.srv t = some w → w.nonceSent = lastOr y.cnonce y.s2c
@@ -125,20 +113,6 @@ theorem silent_last_settles (t : Ty) (s : State) (m : Req) (sub : List String) (
       rw [← hnames]; simpa [Req.unsub] using hu
     simp only [hu', if_true]
     rw [← hs]; simp
-
-theorem getLast?_append_singleton (l : List Req) (m : Req) : (l ++ [m]).getLast? = some m := by
-  simp
-
-theorem recordMatches_set_always (s : State) (t : Ty) (names : List String) (w : WR)
-    (hw : s t = some w) (h : recordMatches s t names) :
-    recordMatches (s.set t (some { w with always := true })) t names := by
-  unfold recordMatches at *
-  split
-  · rename_i hc; simp only [hc, if_true] at h; rw [hw] at h; cases h
-  · rename_i hc; simp only [hc, if_false] at h
-    obtain ⟨w0, hw0, hn⟩ := h
-    rw [hw] at hw0; cases hw0
-    exact ⟨{ w with always := true }, by simp, hn⟩
 
 theorem inv_step (t : Ty) (y : Sys) (e : Step) (h : Inv t y) : Inv t (step t y e) := by
   cases e with
@@ -285,11 +259,6 @@ theorem quiescent_record_matches (t : Ty) (srv : State) (names : List String) (n
   · rw [hsent] at h1; cases h1
   · rw [hnack] at h1; cases h1
   · exact h1
-
-/-- No request the closed loop ever hands to the server crashes it: the `.crash` arm of `step` is
-    dead code (crash freedom itself is `never_crashes`, for every state and request). -/
-theorem serverRecv_never_crashes (t : Ty) (y : Sys) (m : Req) (rest : List Req) (_ : y.c2s = m :: rest) :
-    shouldRespond y.srv m ≠ .crash := never_crashes _ _
 
 /-- Non-vacuity: a concrete exchange (reconnecting client with a retained nonce `old`, subscribes
     to `a`, gets a response, ACKs, then adds `b`, gets a response, ACKs) reaches a quiescent state
